@@ -91,9 +91,4 @@ def judgeC14 (kind : String) (rest : String) (id : String) (impl : String) : Ver
     { corr := projC14P c mo == projC14P c io, oi := oracleC14P c io, om := oracleC14P c mo,
       nt := !(acceptedAudioFrames c io).isEmpty }
 
-def judge (prop kind id rest impl : String) : Verdict :=
-  match prop with
-  | "C14" => judgeC14 kind rest id impl
-  | _ => { corr := false, oi := false, om := false, note := "unknown property" }
-
 end Driver
